@@ -194,6 +194,26 @@ def prepare_examples(ctx, extreme_rain=True):
         "Field_ID  Ti Typ date\n          cm\n" + "".join("SOYSM1     %d 1   0901%d\n" % (3 if y % 2 == 0 else 5, y) for y in range(1981, 1998)) + "end\n")
     open(os.path.join(mp, "fert_myP.txt"), "w").write(
         "Field_ID  N   Frt date\n" + "".join("SOYSM1    120 RM  0320%d\n" % y for y in range(1981, 1998)) + "end\n")
+    # zuc (automatic fertilisation is on in its configuration): a THIRD N split timed by a day of the year (shipped
+    # tables time it by a development stage or have none) for silage maize (small target: the rooted zone holds more),
+    # sugar beet and winter rape; organic fertiliser after harvest (autorg = 1, timing H1) for the rotation of plot 10001
+    ap = os.path.join(ex, "project", "zuc", "automan.txt")
+    al = open(ap).read().split("\n")
+    for i, ln in enumerate(al):
+        for crop, ndem3 in (("SM ", "10 "), ("ZR ", "100"), ("WRA", "45 ")):
+            if ln.startswith(crop + " ") and len(ln) > 130:
+                al[i] = ln[:106] + ndem3 + ln[109:127] + "150" + ln[130:]
+    open(ap, "w").write("\n".join(al))
+    cz = os.path.join(ex, "project", "zuc", "crop_zuc.csv")
+    cl = open(cz).read().split("\n")
+    hdr = cl[0].split(",")
+    ai = hdr.index("autorg")
+    for i, ln in enumerate(cl[1:], 1):
+        t = ln.split(",")
+        if len(t) > ai and t[0] == "L2F3R1":
+            t[ai] = "1"
+            cl[i] = ",".join(t)
+    open(cz, "w").write("\n".join(cl))
     if extreme_rain:
         rnd = random.Random(ctx.seed)
         src = os.path.join(ex, "weather", "historical")
@@ -216,6 +236,10 @@ def prepare_examples(ctx, extreme_rain=True):
                     # amounts exactly on the class limits of the sub-step choice (|FLUSS0|*DZ = 5, 10, 15 when nothing
                     # evaporates that day) and their neighbours
                     t[pi] = rnd.choice(["5.0", "10.0", "15.0", "4.9", "5.1", "9.9", "10.1", "14.9", "15.1", "0.0"])
+                # heavy rain on the day after each fixed harvest date of the zuc rotation of plot 10001 (organic fertiliser
+                # due "harvest + 1 day" then falls on a day with several sub-steps)
+                if len(t) > pi and t[0] in ("1980-08-05", "1981-07-21", "1982-09-07", "1983-10-16", "1984-09-21", "1985-08-06"):
+                    t[pi] = "38.0"
                 out.append(",".join(t))
             open(os.path.join(dst, fn), "w").write("\n".join(out))
     return ex
@@ -238,6 +262,8 @@ TRACE_LINES = [
     # flux equals the rain exactly (class limits of the sub-step choice are hit exactly)
     ("project=ex1 WeatherFolder=extreme soilId=075 fcode=109_120 plotNr=10002 Altitude=73 Latitude=52.6728 poligonID=29873 ETpot=1 AutoIrrigation=0", "EN"),
     ("project=ex3 WeatherFolder=historical soilId=075 gwId=K5 fcode=109_120 plotNr=10001 Altitude=73 Latitude=52.6732 poligonID=29872", "EN"),
+    # fixed sowing / harvest dates with automatic fertilisation: organic fertiliser due the day after harvest
+    ("project=zuc WeatherFolder=extreme fcode=109_120 plotNr=10001 soilId=001 Altitude=73 Latitude=52.6732 poligonID=29872 AutoHarvest=0 AutoSowingHarvest=0", "DE"),
     ("project=bulk WeatherFolder=extreme soilId=002 fcode=109_120 plotNr=10001 Altitude=73 Latitude=52.6732 poligonID=29872", "EN"),
     ("project=rue WeatherFolder=historical fcode=109_121 plotNr=10002 soilId=001 Altitude=46 Latitude=52.6431 poligonID=30169", "DE"),
     ("project=ex1 WeatherFolder=extreme soilId=041 fcode=109_121 plotNr=10001 Altitude=73 Latitude=52.6680 poligonID=29876 ETpot=1", "EN"),
@@ -268,7 +294,7 @@ def run_trace(ctx, water_every=None):
     """traced runs of shipped projects (scratch copy) -> (rc, cases, oracle lines, stderr)"""
     import os
     ex = prepare_examples(ctx)
-    nl, endy = (14, 1995) if ctx.thorough else (11, 1982)
+    nl, endy = (15, 1995) if ctx.thorough else (12, 1982)
     lf = os.path.join(ctx.work, "trace_lines.txt")
     with open(lf, "w") as f:
         f.write("\n".join(trace_lines(ctx, nl, endy)) + "\n")
